@@ -153,6 +153,9 @@ pub struct Eng {
     /// keys whose last write failed: the other state the key may turn out to be in (a failed
     /// operation may or may not have taken effect, and which of the two can change at a restart)
     pub alt: HashMap<Vec<u8>, Vec<Option<Vec<u8>>>>,
+    /// the process's local time zone changes at every reopen (while the store is closed, so that no
+    /// thread of the store is alive when the environment is touched)
+    pub tz_walk: bool,
 }
 
 fn operr(e: &OpErr) -> String {
@@ -178,6 +181,7 @@ impl Eng {
             merge_outputs: BTreeSet::new(),
             last_merge: None,
             alt: HashMap::new(),
+            tz_walk: false,
         }
     }
 
@@ -481,6 +485,16 @@ impl Eng {
             self.f.reopens_with_hint += 1;
         }
         self.f.tombstones_at_reopen += self.deleted_once.iter().filter(|k| !self.model.contains_key(*k)).count() as u64;
+        if self.tz_walk {
+            crate::store::wait_background_threads(0, 5000);
+            let tz = *self.r.pick(&["UTC0", "EST5", "PST8", "VRF-12", "VRF+11", "VRF-5:30", "VRF-1"]);
+            std::env::set_var("TZ", tz);
+            extern "C" {
+                fn tzset();
+            }
+            unsafe { tzset() };
+            self.trace.push(format!("TZ={}", tz));
+        }
         self.open()
     }
 
